@@ -34,22 +34,22 @@ def cfg_text(consts, invariants=("Holds", "TypeOK"), view=True, deadlock=True):
 
 # ---------------------------------------------------------------------------------------------- model configurations
 def _reader(tier, bug="none", **over):
-    c = dict(Depths=[1, 2] if tier == "quick" else [1, 2, 3, 4], Buffereds=[False, True], Lmins=[1, 2] if tier == "quick" else [1, 3],
-             Addrs=[0, 1] if tier == "quick" else [0, 1, 2], Bug=bug)
+    c = dict(Depths=[1, 2] if tier == "quick" else [1, 2, 3], Buffereds=[False, True], Lmins=[1, 2] if tier == "quick" else [1, 3],
+             Addrs=[0, 1], Bug=bug)
     c.update(over)
     return c
 
 
 def _writer(tier, bug="none", **over):
     # a buffered data FIFO shows a word two cycles after it was written: the memory must not strobe earlier (Lmin >= 2)
-    c = dict(Depths=[1, 2] if tier == "quick" else [1, 2, 3, 4], Buffereds=[False, True], Lmins=[2] if tier == "quick" else [2, 3],
+    c = dict(Depths=[1, 2] if tier == "quick" else [1, 2, 3], Buffereds=[False, True], Lmins=[2] if tier == "quick" else [2, 3],
              Addrs=[0, 1], Datas=[1, 2], Bug=bug)
     c.update(over)
     return c
 
 
 def _ctrl(tier, bug="none", **over):
-    c = dict(Depths=[2, 3] if tier == "quick" else [2, 3, 4], WDepths=[1, 2] if tier != "quick" else [2], RDepths=[1, 2], Lmins=[1] if tier == "quick" else [1, 3],
+    c = dict(Depths=[2, 3] if tier == "quick" else [2, 3, 4], WDepths=[1, 2] if tier != "quick" else [2], RDepths=[1, 2], Lmins=[1],
              Base=4, Bug=bug)
     c.update(over)
     return c
@@ -71,6 +71,8 @@ def models(pid, tier):
         add("MC_DmaReader", _reader(tier), "D_DmaReader exhaustive (all depths x buffered x Lmin)")
         add("MC_DmaWriter", _writer(tier), "D_DmaWriter exhaustive (all depths x buffered x Lmin>=2)")
         if tier == "thorough":
+            add("MC_DmaReader", _reader(tier, Depths=[4], Lmins=[1, 2]), "D_DmaReader exhaustive, depth 4")
+            add("MC_DmaWriter", _writer(tier, Depths=[4], Lmins=[2]), "D_DmaWriter exhaustive, depth 4")
             add("MC_DmaWriter", _writer(tier, Depths=[1, 2, 3], Buffereds=[False], Lmins=[1]), "D_DmaWriter unbuffered, Lmin=1")
         one = dict(Depths=[2], Lmins=[1])
         add("MC_DmaReader", _reader(tier, "res_released_on_fill", Buffereds=[False], **one), "NEG D_DmaReader: reservation released when the word enters the FIFO", True)
@@ -83,6 +85,8 @@ def models(pid, tier):
             add("MC_DmaWriter", _writer(tier, Depths=[2], Buffereds=[True], Lmins=[1]), "NEG env: buffered writer FIFO with a memory strobing 1 cycle after the command", True)
     else:
         add("MC_FifoCtrl", _ctrl(tier), "D_FifoCtrl exhaustive (depths x DMA FIFO depths)")
+        if tier == "thorough":
+            add("MC_FifoCtrl", _ctrl(tier, Depths=[2, 3], WDepths=[2], RDepths=[2], Lmins=[3]), "D_FifoCtrl exhaustive, memory latency >= 3")
         add("MC_FifoCtrl", _ctrl(tier, "level_read_wins", Depths=[3], WDepths=[2], RDepths=[2], Lmins=[1]), "NEG D_FifoCtrl: level update race (read wins over simultaneous write)", True)
         if tier == "thorough":
             add("MC_FifoCtrl", _ctrl(tier, "inc_no_wrap", Depths=[3], WDepths=[2], RDepths=[2], Lmins=[1]), "NEG D_FifoCtrl: pointer does not wrap at depth", True)
@@ -105,9 +109,9 @@ def models(pid, tier):
 # ---------------------------------------------------------------------------------------------- spec -> code
 GEN = {
     "C12": [
-        dict(name="gen-reader", module="MC_DmaReader", kind="reader", consts=lambda t: _reader(t, Lmins=[1, 3], Addrs=[0, 1, 2]), covers=["NeverFullStall"],
+        dict(name="gen-reader", module="MC_DmaReader", kind="reader", consts=lambda t: _reader(t, Depths=[1, 2, 3] if t == "quick" else [1, 2, 3, 4], Lmins=[1, 3], Addrs=[0, 1, 2]), covers=["NeverFullStall"],
              cfg=dict(kind="reader", port="native", depth=0)),
-        dict(name="gen-writer", module="MC_DmaWriter", kind="writer", consts=lambda t: _writer(t, Lmins=[2, 3]), covers=["NeverFull"],
+        dict(name="gen-writer", module="MC_DmaWriter", kind="writer", consts=lambda t: _writer(t, Depths=[1, 2, 3] if t == "quick" else [1, 2, 3, 4], Lmins=[2, 3]), covers=["NeverFull"],
              cfg=dict(kind="writer", port="native", depth=0)),
     ],
     "C13": [
